@@ -383,7 +383,7 @@ def scribble_probe(c):
 # cheap structural fingerprint (used for "a raising call changes nothing")
 # ----------------------------------------------------------------------------
 
-def spec_digest(spec) -> tuple:
+def spec_digest(spec, ids: bool = True) -> tuple:
     out = []
     for s in spec:
         name = type(s).__name__
@@ -391,12 +391,12 @@ def spec_digest(spec) -> tuple:
             out.append((name, s.name, s.mode_1, s.mode_2,
                         tuple(sorted(s.heralds["input"].items())),
                         tuple(sorted(s.heralds["output"].items())),
-                        spec_digest(s.circuit_spec)))
+                        spec_digest(s.circuit_spec, ids)))
         else:
             vals = []
             for v in s.values():
                 if Parameter is not None and isinstance(v, Parameter):
-                    vals.append(("P", id(v), repr(v.get())))
+                    vals.append(("P", id(v) if ids else 0, repr(v.get())))
                 elif isinstance(v, np.ndarray):
                     vals.append(("A", v.shape, v.tobytes()))
                 elif isinstance(v, dict):
